@@ -63,7 +63,7 @@ def run(ctx: Ctx):
         if mode is not None:
             g = z3.String('in_glyph')
             p.assume(z3.Length(g) > 0)
-            p.assume(z3.Not(ops.ws_char(ops.first_char(g))))
+            p.assume(z3.Not(ops.ws_char(ops.first_char(g), p)))
             bl = I.call(BulletList, [], {'mode': Mode.members[mode], 'glyph': ops.mkstr([g])}, p)
         return I.call(Indentizer, [], {'indentor': Indentor.members[ind], 'spaces_count': n, 'bullet_list': bl}, p)
 
